@@ -124,4 +124,166 @@ theorem parseInt_renderInt (z : Int) : parseInt (renderInt z) = some z := by
     simp [parseNat_renderNat]
     omega
 
+/-! ### date strings (C18 `date_string_forms`, `valid_date_is_calendar`) -/
+
+/-- an ASCII digit is none of the characters the date parser cuts or splits at, and is not whitespace -/
+theorem digit_char_facts (c : Char) (h : (digitVal c).isSome = true) :
+    c ≠ ' ' ∧ c ≠ 'T' ∧ c ≠ '-' ∧ c ≠ '+' ∧ isWs c = false := by
+  have e1 : c ≠ ' ' := by rintro rfl; exact absurd h (by decide)
+  have e2 : c ≠ 'T' := by rintro rfl; exact absurd h (by decide)
+  have e3 : c ≠ '-' := by rintro rfl; exact absurd h (by decide)
+  have e4 : c ≠ '+' := by rintro rfl; exact absurd h (by decide)
+  have e5 : c ≠ '\t' := by rintro rfl; exact absurd h (by decide)
+  have e6 : c ≠ '\n' := by rintro rfl; exact absurd h (by decide)
+  have e7 : c ≠ '\r' := by rintro rfl; exact absurd h (by decide)
+  have e8 : c ≠ '\x0b' := by rintro rfl; exact absurd h (by decide)
+  have e9 : c ≠ '\x0c' := by rintro rfl; exact absurd h (by decide)
+  refine ⟨e1, e2, e3, e4, ?_⟩
+  simp [isWs, e1, e5, e6, e7, e8, e9]
+
+theorem rstrip_nil : rstrip [] = [] := rfl
+
+theorem rstrip_cons (c : Char) (l : List Char) :
+    rstrip (c :: l) = if rstrip l = [] ∧ isWs c = true then [] else c :: rstrip l := by
+  unfold rstrip
+  rw [List.reverse_cons, List.dropWhile_append]
+  by_cases h : (l.reverse.dropWhile isWs).isEmpty = true
+  · have h' : l.reverse.dropWhile isWs = [] := by simpa using h
+    rw [if_pos h, h']
+    by_cases hc : isWs c = true <;> simp [List.dropWhile, hc]
+  · have h' : l.reverse.dropWhile isWs ≠ [] := by simpa using h
+    rw [if_neg h]
+    simp [h']
+
+theorem rstrip_cons_of_not_ws (c : Char) (l : List Char) (hc : isWs c = false) : rstrip (c :: l) = c :: rstrip l := by
+  rw [rstrip_cons]; simp [hc]
+
+theorem rstrip_append_of_not_ws (a t : List Char) (ha : ∀ c ∈ a, isWs c = false) : rstrip (a ++ t) = a ++ rstrip t := by
+  induction a with
+  | nil => rfl
+  | cons c a ih =>
+    rw [List.cons_append, rstrip_cons_of_not_ws _ _ (ha c (by simp)), ih (fun x hx => ha x (by simp [hx]))]
+    rfl
+
+theorem strip_append_of_not_ws (a t : List Char) (hne : a ≠ []) (ha : ∀ c ∈ a, isWs c = false) :
+    strip (a ++ t) = a ++ rstrip t := by
+  unfold strip lstrip
+  cases a with
+  | nil => contradiction
+  | cons c a =>
+    rw [List.cons_append, dropWhile_eq_self_of_head c _ (ha c (by simp)), ← List.cons_append,
+      rstrip_append_of_not_ws _ _ ha]
+
+/-- the two cuts of `cast_to_date`: at the first space (after `strip`), then at the first `T` -/
+def dateCut (s : List Char) : List Char :=
+  let s1 := if ' ' ∈ s then (strip s).takeWhile (· ≠ ' ') else s
+  if 'T' ∈ s1 then s1.takeWhile (· ≠ 'T') else s1
+
+/-- the component dispatch of `cast_to_date` -/
+def dateOfComps (comps : List (List Char)) : Option (Int × Int × Int) :=
+  match comps with
+  | [y] =>
+    if y.length ≠ 4 then none else
+    match parseInt y with
+    | some yv => if validDate yv 1 1 then some (yv, 1, 1) else none
+    | none => none
+  | [y, m] =>
+    if y.length ≠ 4 then none else
+    match parseInt y, parseInt m with
+    | some yv, some mv => if validDate yv mv 1 then some (yv, mv, 1) else none
+    | _, _ => none
+  | [y, m, d] =>
+    if y.length ≠ 4 then none else
+    match parseInt y, parseInt m, parseInt d with
+    | some yv, some mv, some dv => if validDate yv mv dv then some (yv, mv, dv) else none
+    | _, _, _ => none
+  | _ => none
+
+theorem castStrDate_eq (s : List Char) : castStrDate s = dateOfComps (splitOn '-' (dateCut s)) := rfl
+
+/-- a date part without space, `T` or whitespace, followed by nothing or by a space / `T` and anything, is cut
+back to exactly the date part -/
+theorem dateCut_append (a t : List Char) (hne : a ≠ [])
+    (ha : ∀ c ∈ a, c ≠ ' ' ∧ c ≠ 'T' ∧ isWs c = false)
+    (ht : t = [] ∨ ∃ rest, t = ' ' :: rest ∨ t = 'T' :: rest) : dateCut (a ++ t) = a := by
+  have hsp : ∀ c ∈ a, (decide (c ≠ ' ')) = true := fun c hc => by simpa using (ha c hc).1
+  have hT : ∀ c ∈ a, (decide (c ≠ 'T')) = true := fun c hc => by simpa using (ha c hc).2.1
+  have hspa : ' ' ∉ a := fun h => (ha _ h).1 rfl
+  have hTa : 'T' ∉ a := fun h => (ha _ h).2.1 rfl
+  -- step A
+  have hA : ∃ t1, (if ' ' ∈ a ++ t then (strip (a ++ t)).takeWhile (· ≠ ' ') else a ++ t) = a ++ t1 ∧
+      (t1 = [] ∨ ∃ r, t1 = 'T' :: r) := by
+    by_cases hs : ' ' ∈ a ++ t
+    · rw [if_pos hs, strip_append_of_not_ws a t hne (fun c hc => (ha c hc).2.2),
+        List.takeWhile_append_of_pos hsp]
+      refine ⟨_, rfl, ?_⟩
+      rcases ht with rfl | ⟨rest, rfl | rfl⟩
+      · left; rfl
+      · left
+        rw [rstrip_cons]
+        split <;> simp
+      · right
+        rw [rstrip_cons_of_not_ws _ _ (by decide), List.takeWhile_cons_of_pos (by decide)]
+        exact ⟨_, rfl⟩
+    · rw [if_neg hs]
+      refine ⟨t, rfl, ?_⟩
+      rcases ht with rfl | ⟨rest, rfl | rfl⟩
+      · left; rfl
+      · exact absurd (by simp) hs
+      · right; exact ⟨_, rfl⟩
+  obtain ⟨t1, h1, h2⟩ := hA
+  unfold dateCut
+  simp only [h1]
+  rcases h2 with rfl | ⟨r, rfl⟩
+  · simp [hTa]
+  · rw [if_pos (by simp), List.takeWhile_append_of_pos hT]
+    simp
+
+theorem splitOn_of_not_mem (c : Char) (a : List Char) (h : c ∉ a) : splitOn c a = [a] := by
+  induction a with
+  | nil => rfl
+  | cons x a ih =>
+    have hx : x ≠ c := fun e => h (by simp [e])
+    have := ih (fun e => h (by simp [e]))
+    simp [splitOn, hx, this]
+
+theorem splitOn_append_sep (c : Char) (a b : List Char) (h : c ∉ a) :
+    splitOn c (a ++ c :: b) = a :: splitOn c b := by
+  induction a with
+  | nil => simp [splitOn]
+  | cons x a ih =>
+    have hx : x ≠ c := fun e => h (by simp [e])
+    have := ih (fun e => h (by simp [e]))
+    simp [splitOn, hx, this]
+
+/-- `int(s)` on a non-empty digit run is its value -/
+theorem parseInt_digits (xs : List Char) (n : Nat) (hd : ∀ c ∈ xs, (digitVal c).isSome = true)
+    (hp : parseNat xs = some n) : parseInt xs = some (n : Int) := by
+  unfold parseInt
+  rw [strip_eq_self xs (fun c hc => (digit_char_facts c (hd c hc)).2.2.2.2)]
+  cases xs with
+  | nil => simp [parseNat] at hp
+  | cons c cs =>
+    have hc := digit_char_facts c (hd c (by simp))
+    split
+    · rename_i heq; simp at heq; exact absurd heq.1 hc.2.2.1
+    · rename_i heq; simp at heq; exact absurd heq.1 hc.2.2.2.1
+    · simp [hp]
+
+theorem validDate_iff (y m d : Nat) :
+    validDate y m d = true ↔
+      (1 ≤ y ∧ y ≤ 9999 ∧ 1 ≤ m ∧ m ≤ 12 ∧ 1 ≤ d ∧
+        d ≤ (if m = 2 then (if (y % 4 = 0 ∧ y % 100 ≠ 0) ∨ y % 400 = 0 then 29 else 28)
+             else if m = 4 ∨ m = 6 ∨ m = 9 ∨ m = 11 then 30 else 31)) := by
+  unfold validDate
+  simp only [Int.toNat_natCast, Bool.and_eq_true, decide_eq_true_eq]
+  by_cases hm : 1 ≤ m ∧ m ≤ 12
+  · have : m = 1 ∨ m = 2 ∨ m = 3 ∨ m = 4 ∨ m = 5 ∨ m = 6 ∨ m = 7 ∨ m = 8 ∨ m = 9 ∨ m = 10 ∨ m = 11 ∨ m = 12 := by
+      omega
+    rcases this with rfl | rfl | rfl | rfl | rfl | rfl | rfl | rfl | rfl | rfl | rfl | rfl <;>
+      simp [daysInMonth, isLeap] <;> (try split) <;> omega
+  · constructor
+    · intro h; omega
+    · intro h; omega
+
 end PysparklingVerif.Cast
